@@ -71,6 +71,9 @@ def work(job):
                 res["status"] = case.why
                 break
             continue
+        if case.known_spin():
+            res["status"] = "excluded:spin-through-outofspace-redirect (the finding recorded under C04)"
+            break
         res["cases"] += 1
         res["states"] = case.nstates
         reps, _ = inputs.byte_classes(case.dfa)
@@ -141,6 +144,9 @@ def main():
     st = {"programs": 0, "cases": 0, "single_steps_and_walk_segments": 0, "walks": 0, "ub_segments": 0, "rejected": 0}
     distinct = set()
     for r in results:
+        if r["status"].startswith("excluded"):
+            st["excluded_known_spin"] = st.get("excluded_known_spin", 0) + 1
+            continue
         if r["status"] != "ok":
             st["rejected"] += 1
             continue
